@@ -32,6 +32,7 @@ CONSTANTS
     EpLens,      \* set of episode lengths (0 = whole fold)
     Spaces,      \* subset of {"box", "discrete"}
     Bads,        \* set of [at : Nat, cls : STRING]: a malformed action of class cls submitted at step `at` (at = 0: none)
+    DayLen,      \* time units per calendar day (86400 when times are seconds; finer units for sub-second lattices)
     MaxCalls,    \* bound on the number of reset/step calls in a behaviour
     ResetAnywhere,  \* BOOLEAN: reset enabled in every phase (repeated / abandoned episodes)
     ClockRule,   \* "before_newdate" (pinned code) | "after_newdate" (the property)
@@ -52,7 +53,7 @@ Ev(i) == [id |-> i, t |-> Cand[i].t, kind |-> Cand[i].kind, c |-> Cand[i].c,
 
 Notify(s, ev, call, pre) ==
     LET e == s.env
-        newdate == e.lastEv # NoTime /\ Day(e.lastEv) # Day(ev.t)
+        newdate == e.lastEv # NoTime /\ (e.lastEv \div DayLen) # (ev.t \div DayLen)
         log1 == IF newdate
                 THEN Append(s.log, [kind |-> "newdate", id |-> 0, t |-> e.lastEv, clk |-> e.lastEv,
                                     call |-> call, pre |-> pre])
